@@ -78,6 +78,11 @@ func init() {
 		} else {
 			out += " hash-ok"
 		}
+		for _, h := range []crypto.Hash{crypto.SHA1, crypto.SHA384, crypto.SHA512} { // the other digests Authenticode signatures use
+			if h.Available() {
+				out += fmt.Sprintf(" %d", len(p.Hash(h)))
+			}
+		}
 		out += fmt.Sprintf(" bytes-%d", len(p.Bytes()))
 		if cert != nil {
 			ok, err := p.Verify(cert)
@@ -158,6 +163,13 @@ func c13Eval(c *Ctx, cs Case) {
 	// memory proportional to the input: parsing keeps a few copies of the file (debug/pe, the rest
 	// buffer, Bytes(), the discard pass) and DER parsing allocates per element
 	budget := 64*uint64(len(b)) + (4 << 20)
+	if strings.HasPrefix(ep, "pe.") {
+		// debug/pe reads a declared string table / section through internal/saferio, which allocates up to one
+		// 10 MiB chunk for a declared size before it notices that the file is shorter: a fixed amount of the
+		// standard library, not one governed by the input (found by the seed-3 sweep: 10 494 320 bytes for a
+		// 2240-byte image whose symbol-table pointer leads to a declared length just under 10 MiB)
+		budget += 10 << 20
+	}
 	switch res.Class {
 	case "ok", "err":
 		if res.Alloc > budget {
@@ -278,6 +290,119 @@ func c13ImageMutants(c *Ctx, img []byte, emit func(class string, b []byte)) {
 	}
 }
 
+// notDER: byte strings that are not a readable DER element (cryptobyte reads nothing from them), and
+// readable elements of the wrong kind; placed where a parser expects a sequence of elements
+var notDER = []struct {
+	name string
+	b    []byte
+}{
+	{"truncated-element", []byte{0x30, 0x05, 0x00}}, // declares 5 content octets, has 1
+	{"lone-zero-byte", []byte{0x00}},                // a stray padding byte
+	{"lone-tag", []byte{0x30}},                      // identifier octet without a length
+	{"length-beyond-input", []byte{0x04, 0x84, 0x7f, 0xff, 0xff, 0xff}},
+	{"indefinite-length", []byte{0x30, 0x80, 0x00, 0x00}},
+	{"non-minimal-length", []byte{0x30, 0x81, 0x01, 0x00}},
+	{"high-tag-number", []byte{0x1f, 0x81, 0x00, 0x00}},
+	{"readable-then-truncated", []byte{0x05, 0x00, 0x31, 0x03, 0x02}},
+}
+
+var readableOddities = []struct {
+	name string
+	b    []byte
+}{
+	{"empty", nil},
+	{"well-formed-attribute", []byte{0x30, 0x0f, 0x06, 0x09, 0x2a, 0x86, 0x48, 0x86, 0xf7, 0x0d, 0x01, 0x09, 0x06, 0x31, 0x02, 0x05, 0x00}},
+	{"attribute-without-type", []byte{0x30, 0x02, 0x05, 0x00}},
+	{"attribute-without-values", []byte{0x30, 0x03, 0x06, 0x01, 0x2a}},
+	{"octet-string-instead-of-attribute", []byte{0x04, 0x00}},
+	{"many-empty-attributes", bytes.Repeat([]byte{0x30, 0x00}, 200)},
+}
+
+// p7OptionalFields emits the blob with the OPTIONAL fields of the SignedData syntax that the library never
+// writes itself - unauthenticatedAttributes [1] at the end of every signer entry, crls [1] in front of the signer
+// entries - holding each kind of content: nothing, well-formed and ill-shaped readable elements, and bytes that
+// are no DER element at all. With allNodes, the unreadable bytes are also placed behind the last child of every
+// constructed element of the blob outside the certificates (lengths of the enclosing elements adjusted, so only
+// that element is damaged; inside the certificates too in the thorough tier). Of the contents, those with index
+// = rot (mod stride) are emitted: callers rotate rot over their blobs, so every content is used with some blob.
+func p7OptionalFields(c *Ctx, blob []byte, rot, stride int, allNodes bool, emit func(class string, b []byte)) {
+	roots, ok := parseDER(blob)
+	if !ok || len(roots) == 0 {
+		return
+	}
+	type content struct {
+		name string
+		b    []byte
+	}
+	var contents []content
+	for _, x := range readableOddities {
+		contents = append(contents, content{"readable/" + x.name, x.b})
+	}
+	for _, x := range notDER {
+		contents = append(contents, content{"unreadable/" + x.name, x.b})
+		contents = append(contents, content{"unreadable/attribute-then-" + x.name, append(append([]byte{}, readableOddities[1].b...), x.b...)})
+	}
+	raw := func(tag byte, body []byte) *derNode { return &derNode{tag: tag, leaf: append([]byte{}, body...)} } // encoded as tag, length, body as is
+	for ci, ct := range contents {
+		if stride > 1 && ci%stride != rot%stride {
+			continue
+		}
+		r := roots[0].clone()
+		sd := p7SignedDataOf(r)
+		if len(sd.kids) < 4 || sd.kids[len(sd.kids)-1].tag != 0x31 || len(sd.kids[len(sd.kids)-1].kids) == 0 {
+			return
+		}
+		signers := sd.kids[len(sd.kids)-1]
+		for _, si := range signers.kids {
+			if si.compound {
+				si.kids = append(si.kids, raw(0xa1, ct.b))
+			}
+		}
+		emit("optional-field/unauthenticated-attributes/"+ct.name, r.encode())
+		r = roots[0].clone()
+		sd = p7SignedDataOf(r)
+		n := len(sd.kids)
+		sd.kids = append(sd.kids[:n-1:n-1], raw(0xa1, ct.b), sd.kids[n-1])
+		emit("optional-field/crls/"+ct.name, r.encode())
+	}
+	if !allNodes {
+		return
+	}
+	var nodes []*derNode
+	inCert := map[*derNode]bool{}
+	roots[0].walk(nil, func(n, p *derNode) {
+		nodes = append(nodes, n)
+		// the elements of the certificates field: [0] whose children are Certificate ::= SEQUENCE { tbs, alg, BIT STRING }
+		inCert[n] = p != nil && (inCert[p] || (p.tag == 0xa0 && n.tag == 0x30 && len(n.kids) == 3 && n.kids[2].tag == 0x03))
+	})
+	for i, n := range nodes {
+		if !n.compound || (inCert[n] && !c.Thorough) {
+			continue
+		}
+		kinds := notDER
+		if !c.Thorough { // one kind per element, all kinds over the elements of a blob
+			kinds = notDER[(i+rot)%len(notDER) : (i+rot)%len(notDER)+1]
+		}
+		for _, x := range kinds {
+			r := roots[0].clone()
+			j := 0
+			var target *derNode
+			r.walk(nil, func(m, _ *derNode) {
+				if j == i {
+					target = m
+				}
+				j++
+			})
+			var body []byte
+			for _, k := range target.kids {
+				body = append(body, k.encode()...)
+			}
+			target.compound, target.kids, target.leaf = false, nil, append(body, x.b...)
+			emit("unreadable-tail-in-element/"+x.name, r.encode())
+		}
+	}
+}
+
 // c13InProcess runs a step of the generator in which the library works on valid inputs in this
 // process. Unlike a worker, a step that never returns cannot be killed: it is reported and the run ends
 // (the process exits with the report while the step is still spinning).
@@ -350,15 +475,22 @@ func c13Gen(c *Ctx) {
 	}
 	// the seed images and blobs are signed by the library in this process (valid inputs)
 	var seeds []p7Seed
+	type signedImage struct{ img, sig []byte }
+	var signedImages []signedImage
 	if !c13InProcess(c, "parsing and signing the valid generated images and signature blobs", func() {
 		for i := 0; i < c.N(2, 40); i++ {
 			s := genPeSpec(c, false)
 			s.CertBodies = nil
 			img := buildPE(s).img
-			if signed, _, err := signImage(c, img, 0); err == nil {
+			if signed, sig, err := signImage(c, img, 0); err == nil {
 				images = append(images, signed)
+				signedImages = append(signedImages, signedImage{signed, sig})
 			} else {
 				images = append(images, img)
+			}
+			if i == 0 { // the same image with section headers that declare raw data without a file pointer
+				s.NoBits, s.Trailing = []int{64, 1 + c.Rng.Intn(2000)}, 2100
+				images = append(images, buildPE(s).img)
 			}
 		}
 		seeds = p7Seeds(c, false)
@@ -376,6 +508,32 @@ func c13Gen(c *Ctx) {
 	}
 	emit("pe.all", "empty", nil)
 	emit("pe.all", "mz-only", []byte("MZ"))
+	// what an image entry point does with the signature INSIDE the certificate table: the signed images with
+	// their own signature replaced by each derived blob (targeted forgeries: every object identifier - digest
+	// algorithm of the SpcIndirectDataContent DigestInfo, of the SignedData, of the signer entry, content types,
+	// attribute types, signature algorithm - replaced by each of seven siblings, dropped signed attributes, several
+	// signer entries, blobs inside blobs; optional fields with readable and unreadable content; a sample of the
+	// generic mutations), verified through PECOFFBinary.Verify with the signer's certificate
+	{
+		k1 := poolKey(c, 2048, 1)
+		shapes := certShapes(c)
+		for i, si := range signedImages {
+			if i >= c.P(2, 8) {
+				break
+			}
+			sd := p7Seed{name: "image-signature", blob: si.sig, right: cert, twin: makeRSACert(k1, shapes[0]), other: makeRSACert(k1, shapes[1])}
+			inTable := func(class string, b []byte) { emit("pe.all", "table-entry/"+class, withTable(si.img, winCert(b))) }
+			forgeries(c, sd, inTable)
+			p7OptionalFields(c, si.sig, i, c.P(2, 1), false, inTable)
+			n := 0
+			mutateBlob(c, si.sig, func(class string, b []byte) {
+				n++
+				if c.Thorough || n%5 == 0 {
+					inTable(class, b)
+				}
+			})
+		}
+	}
 	// WIN_CERTIFICATEs (the wrapper of a signature in the certificate table): the entries of the signed
 	// images and signature blobs in a fresh wrapper, handed to ReadWinCertificate through every kind of
 	// io.Reader, with dwLength swept below, at and far beyond the data that follow the header
@@ -445,6 +603,8 @@ func c13Gen(c *Ctx) {
 		}
 		emitP7("valid", s.blob)
 		forgeries(c, s, func(class string, b []byte) { emitP7(class, b) })
+		// quick: a rotating quarter of the contents per blob (all of them for every ninth), element tails for every ninth
+		p7OptionalFields(c, s.blob, i/3, map[bool]int{true: 1, false: c.P(4, 1)}[i%27 == 0], c.Thorough || i%27 == 0, emitP7)
 		n := 0
 		mutateBlob(c, s.blob, func(class string, b []byte) {
 			n++
@@ -462,7 +622,7 @@ func c13Gen(c *Ctx) {
 
 func init() {
 	register("C13", &PropDef{
-		Rule:   "image entry points (Parse, Signatures, Hash, Bytes, Verify) and signature entry points (ParsePKCS7, ParseAuthenticode, both Verifys) in a sandboxed worker process (address-space limit, per-input timeout, TotalAlloc delta). Images: repository binaries and generated signed images under sweeps of e_lfanew, SizeOfOptionalHeader, NumberOfSections, NumberOfRvaAndSizes, SizeOfHeaders, section offsets/sizes (incl. overlap, 2^31, 2^32-1), certificate directory address/size beyond the file, WIN_CERTIFICATE dwLength (<8, huge), every ~2% truncation point, random header bytes; the section sweeps cover the first three and the last section header (raw data at / beyond the end of the file included). WIN_CERTIFICATEs (certificate-table entries of the signed images, signature blobs in a fresh wrapper, an empty and a GUID-typed one) are read by ReadWinCertificate through 8 kinds of io.Reader (bytes.Reader, bytes.Buffer, bufio.Reader, io.SectionReader, an open os.File, io.Pipe, a reader with no method but Read, a one-byte reader) with dwLength in {0,1,7,8,9,n-1,n,n+1,n+8,2n,2^16,2^20,2^24,2^28,2^31-1,2^31,2^32-8,2^32-1} over the full body and over 0..16 bytes of body, truncations and wrong revisions; the same time/memory oracle, and the decoded fields are compared with the Lean model of the reader for every kind. Signatures: library/fixture/CMS-shaped blobs under bit flips, per-leaf flips, structural DER edits, targeted forgeries (incl. dropped signed attributes, two-signer-entry combinations, and blobs nested inside blobs: unsigned attributes, certificates, CRLs, content, signer entries, trailing fields), oversized and truncated lengths; each verified with the certificate its signer entry names and, for a quarter, with a stranger's. Non-trivial: non-empty input; distinct = distinct inputs.",
+		Rule:   "image entry points (Parse, Signatures, Hash, Bytes, Verify) and signature entry points (ParsePKCS7, ParseAuthenticode, both Verifys) in a sandboxed worker process (address-space limit, per-input timeout, TotalAlloc delta). Images: repository binaries, generated signed images and a generated image with two section headers that declare raw data without a file pointer (PointerToRawData = 0), under sweeps of e_lfanew, SizeOfOptionalHeader, NumberOfSections, NumberOfRvaAndSizes, SizeOfHeaders, section offsets/sizes (incl. overlap, 2^31, 2^32-1), certificate directory address/size beyond the file, WIN_CERTIFICATE dwLength (<8, huge), every ~2% truncation point, random header bytes; the section sweeps cover the first three and the last section header (raw data at / beyond the end of the file included). Signatures inside the certificate table: two signed generated images with their own signature replaced by each derived blob - the targeted forgeries (every object identifier outside the certificates, among them the digest algorithm of the SpcIndirectDataContent DigestInfo, replaced by each of seven siblings (SHA-1/384/512, ...) alone and with a content change; dropped signed attributes; several signer entries; blobs nested inside blobs), the optional fields below, and a fifth of the generic mutations - parsed, listed, hashed (SHA-256 and SHA-1/384/512), re-serialised and verified through PECOFFBinary.Verify with the certificate of the signer. WIN_CERTIFICATEs (certificate-table entries of the signed images, signature blobs in a fresh wrapper, an empty and a GUID-typed one) are read by ReadWinCertificate through 8 kinds of io.Reader (bytes.Reader, bytes.Buffer, bufio.Reader, io.SectionReader, an open os.File, io.Pipe, a reader with no method but Read, a one-byte reader) with dwLength in {0,1,7,8,9,n-1,n,n+1,n+8,2n,2^16,2^20,2^24,2^28,2^31-1,2^31,2^32-8,2^32-1} over the full body and over 0..16 bytes of body, truncations and wrong revisions; the same time/memory oracle, and the decoded fields are compared with the Lean model of the reader for every kind. Signatures: library/fixture/CMS-shaped blobs under bit flips, per-leaf flips, structural DER edits, targeted forgeries (incl. dropped signed attributes, two-signer-entry combinations, and blobs nested inside blobs: unsigned attributes, certificates, CRLs, content, signer entries, trailing fields), oversized and truncated lengths; the OPTIONAL fields of the syntax that the library never writes (unauthenticatedAttributes [1] at the end of every signer entry, crls [1]) holding nothing / a well-formed attribute / ill-shaped readable elements / 200 empty attributes / bytes that are no DER element at all (truncated element, lone zero byte, lone tag, length beyond the input, indefinite and non-minimal length, high tag number, readable then truncated; alone and behind a well-formed attribute) - quick: a rotating quarter of these contents per blob, all of them for every ninth blob; and the same unreadable bytes behind the last child of every constructed element outside the certificates (every ninth blob; thorough: every blob, inside the certificates too); each verified with the certificate its signer entry names and, for a quarter, with a stranger's. Non-trivial: non-empty input; distinct = distinct inputs.",
 		Assume: []string{"allocation budget 64 bytes per input byte + 4 MiB; time limit 0.5 s + 1 µs per input byte; an input that got no answer after ten times its limit (at least 5 s) is reported as hanging and the worker is killed; after 3 such inputs the rest of the run is not executed (class not-run-after-timeouts)", "wall-clock time and resident memory are runtime facts measured on the sampled inputs only"},
 		Eval:   c13Eval, Gen: c13Gen,
 	})
